@@ -54,3 +54,66 @@ Proof.
     solve_reps.
 Qed.
 
+
+(* ------------------------------------------------------------------ horizontal axis
+   box.style.parent_style: None for the root element, else a style whose direction is ltr or rtl;
+   shrink_to_fit(context, box, available) is an oracle: some function stf of the available width *)
+Definition haxis (l r w ml mr : oq) (pl pr bl br pos : Q) : axis :=
+  mk_axis l r w ml mr (pl + pr + bl + br) pos.
+Definition parent_style (root ltr : bool) : val :=
+  if root then VNone else VObj [("direction", VStr (if ltr then "ltr" else "rtl"))].
+Definition hbox (root ltr : bool) (l r w ml mr : oq) (pl pr bl br pos : Q) : val :=
+  VObj [("style", VObj [("parent_style", parent_style root ltr)]);
+        ("left", vo l); ("right", vo r); ("width", vo w); ("margin_left", vo ml); ("margin_right", vo mr);
+        ("padding_left", VNum pl); ("padding_right", VNum pr); ("border_left_width", VNum bl);
+        ("border_right_width", VNum br); ("position_x", VNum pos)].
+Definition hbox_rep (v : val) (b : axis) : Prop :=
+  rep (fieldv v "left") (a_start b) /\ rep (fieldv v "right") (a_end b) /\ rep (fieldv v "width") (a_size b) /\
+  rep (fieldv v "margin_left") (a_ms b) /\ rep (fieldv v "margin_right") (a_me b) /\
+  repq (fieldv v "position_x") (a_pos b).
+Definition width_post (r : ares) (rho : env) (res : option val) : Prop :=
+  hbox_rep (lookup "box" rho) (fst r) /\
+  exists tb tx, res = Some (VList [VBool tb; VNum tx]) /\ tb = fst (snd r) /\ tx == snd (snd r).
+Definition stf_call (stf : Q -> Q) (f : string) (args : list val) : val :=
+  if String.eqb f "shrink_to_fit" then match args with [_; _; VNum a] => VNum (stf a) | _ => VErr "TypeError" end
+  else VErr "NameError".
+
+
+Definition stf_oracle (O : qops) (stf : Q -> Q) : Prop :=
+  (forall ctx bx a, ocall O "shrink_to_fit" [ctx; bx; VNum a] = VNum (stf a)) /\
+  (forall a a', a == a' -> stf a == stf a').
+
+Ltac fin Hp :=
+  match goal with
+  | |- _ == _ => first [reflexivity | apply Hp; ring | ring | field]
+  | |- _ => reflexivity
+  end.
+Ltac solve_hreps Hp :=
+  unfold width_post, hbox_rep, rep, repq, fieldv;
+  cbn [a_pos a_pad a_ms a_me a_start a_end a_size zero_auto_margins set_size set_ms set_me set_margins num0 fst snd
+       lookup String.eqb Ascii.eqb Bool.eqb];
+  repeat split; try (eexists; eexists; repeat split); fin Hp.
+Ltac ev :=
+  lazy -[qadd qsub qmul qdiv qmax qmin qleb qeqb ocall width_post Qplus Qminus Qmult Qdiv Qeq_bool Qle_bool
+         a_pos a_pad a_ms a_me a_start a_end a_size zero_auto_margins set_size set_ms set_me set_margins num0].
+
+Lemma gen_absolute_width O (HO : ops_ok O) stf (HS : stf_oracle O stf)
+      (root ltr : bool) l r w ml mr pl pr bl br pos cbx cby cbw cbh :
+  run O absolute_width_body
+    [("box", hbox root ltr l r w ml mr pl pr bl br pos); ("context", VObj []); ("cb_x", VNum cbx); ("cb_y", cby);
+     ("cb_width", VNum cbw); ("cb_height", cbh)]
+    (width_post (abs_width (root || ltr) stf cbx cbw (haxis l r w ml mr pl pr bl br pos))) (fun _ => False).
+Proof.
+  destruct HS as [Hc Hp].
+  unfold run, absolute_width_body, hbox, haxis, abs_width, parent_style.
+  (destruct root, ltr, l as [l|], r as [r|], w as [w|], ml as [ml|], mr as [mr|];
+    ev; try (rewrite Hc; ev)).
+  all: unseal HO.
+  all: cbn [a_pos a_pad a_ms a_me a_start a_end a_size zero_auto_margins set_size set_ms set_me set_margins num0].
+  all: repeat match goal with
+            | |- context [Qle_bool ?a ?b] => destruct (Qle_bool a b) eqn:?
+            | |- context [Qeq_bool ?a ?b] => destruct (Qeq_bool a b) eqn:?
+            end.
+  all: try (match goal with H : Qeq_bool 2 0 = true |- _ => vm_compute in H; discriminate H end).
+  all: solve_hreps Hp.
+Qed.
